@@ -725,49 +725,85 @@ Proof.
   assert (E4 : skipn 16 b = rest) by reflexivity.
   cbn [parse_vol_entries]. fold b. rewrite E1, E2, E3, E4. rewrite akai_name_back by exact name_ok_nil. reflexivity.
 Qed.
-Lemma parse_vol_entries_empties rest : forall m,
-  parse_vol_entries m (concat (repeat EMPTY_VOL_ENTRY m) ++ rest) = Ok (repeat ve_empty m).
-Proof.
-  induction m as [|m IH]; [reflexivity|]. cbn [repeat concat]. rewrite <- app_assoc.
-  rewrite parse_vol_entry_empty, IH. reflexivity.
-Qed.
 Definition vol_ok (va : lvolume * avolume) : Prop :=
   name_ok (lv_name (fst va)) /\ (lv_type (fst va) = 1 \/ lv_type (fst va) = 3).
-Lemma parse_vol_entries_app : forall vs m rest, Forall vol_ok vs ->
-  parse_vol_entries (length vs + m) (concat (map (fun va => vol_entry_bytes (fst va) (snd va)) vs) ++ rest)
-  = (r <- parse_vol_entries m rest ;; Ok (map (fun va => ve_of (fst va) (snd va)) vs ++ r)).
+
+(** slots: what sits where *)
+Lemma slot_lookup_in {A} i : forall slots (vas : list A) va, slot_lookup i slots vas = Some va -> In va vas.
 Proof.
-  induction vs as [|[V AV] t IH]; intros m rest HF.
+  induction slots as [|s st IH]; intros [|v vt] va H; cbn [slot_lookup] in H; try discriminate.
+  destruct (s =? i); [injection H as <-; now left|]. right. now apply IH.
+Qed.
+Lemma slot_lookup_below {A} i : forall slots (vas : list A) lo, increasing_from lo slots -> i < lo ->
+  slot_lookup i slots vas = None.
+Proof.
+  induction slots as [|s st IH]; intros [|v vt] lo Hi Hlt; cbn [slot_lookup]; try reflexivity.
+  destruct Hi as [Hs Ht]. destruct (Z.eqb_spec s i) as [E|_]; [lia|]. apply (IH vt (s + 1)); [assumption|lia].
+Qed.
+Lemma filter_map_ext_in {A B} (f g : A -> option B) : forall l, (forall x, In x l -> f x = g x) ->
+  filter_map f l = filter_map g l.
+Proof.
+  induction l as [|x t IH]; intros H; [reflexivity|]. cbn [filter_map]. rewrite (H x) by now left.
+  rewrite IH by (intros y Hy; apply H; now right). reflexivity.
+Qed.
+(** walking the slots 0, 1, 2, ... in order meets the volumes in their order *)
+Lemma slots_collect {A} : forall n a slots (vas : list A),
+  length slots = length vas -> increasing_from a slots -> Forall (fun s => s < a + Z.of_nat n) slots ->
+  filter_map (fun i => slot_lookup i slots vas) (zfrom a n) = vas.
+Proof.
+  induction n as [|n IH]; intros a slots vas Hl Hi Hb.
+  - destruct slots as [|s st]; [destruct vas; [reflexivity|discriminate]|].
+    exfalso. destruct Hi as [Hs _]. apply Forall_inv in Hb. lia.
+  - cbn [zfrom filter_map]. destruct slots as [|s st]; destruct vas as [|v vt]; try discriminate.
+    + cbn [slot_lookup]. apply (IH (a + 1) [] []); [reflexivity|exact I|constructor].
+    + destruct Hi as [Hs Ht]. inversion Hb as [|? ? Hb1 Hb2]; subst. cbn [length] in Hl.
+      cbn [slot_lookup]. destruct (Z.eqb_spec s a) as [->|Hne].
+      * f_equal. rewrite (filter_map_ext_in _ (fun i => slot_lookup i st vt)).
+        -- apply IH; [lia|assumption|]. revert Hb2. apply Forall_impl. intros; lia.
+        -- intros i Hin. apply zfrom_In in Hin. cbn [slot_lookup]. destruct (Z.eqb_spec a i); [lia|reflexivity].
+      * rewrite (slot_lookup_below a st vt (s + 1)) by (assumption || lia).
+        apply (IH (a + 1) (s :: st) (v :: vt)); [cbn [length]; lia|split; [lia|assumption]|].
+        constructor; [lia|]. revert Hb2. apply Forall_impl. intros; lia.
+Qed.
+
+(** the entry read back from slot [i] *)
+Definition ve_at (P : lpartition) (AP : apartition) (i : Z) : vol_entry :=
+  match slot_lookup i (lp_slots P) (combine (lp_vols P) AP) with
+  | Some va => ve_of (fst va) (snd va)
+  | None => ve_empty
+  end.
+Lemma parse_vol_slots P AP : Forall vol_ok (combine (lp_vols P) AP) -> forall l m rest,
+  parse_vol_entries (length l + m) (concat (map (vol_slot_bytes P AP) l) ++ rest)
+  = (r <- parse_vol_entries m rest ;; Ok (map (ve_at P AP) l ++ r)).
+Proof.
+  intros HF. induction l as [|i t IH]; intros m rest.
   - cbn [length plus map concat app]. destruct (parse_vol_entries m rest); reflexivity.
-  - inversion HF as [|? ? [Hn Ht] HF']; subst. cbn [fst snd] in *.
-    cbn [length plus map concat fst snd]. rewrite <- app_assoc.
-    rewrite parse_vol_entry_step by assumption. rewrite IH by assumption.
-    destruct (parse_vol_entries m rest); reflexivity.
+  - cbn [length plus map concat]. rewrite <- app_assoc. unfold vol_slot_bytes at 1, ve_at at 1.
+    destruct (slot_lookup i (lp_slots P) (combine (lp_vols P) AP)) as [va|] eqn:E.
+    + apply slot_lookup_in in E. rewrite Forall_forall in HF. destruct (HF va E) as [Hn Ht].
+      rewrite parse_vol_entry_step by assumption. rewrite IH.
+      destruct (parse_vol_entries m rest); reflexivity.
+    + rewrite parse_vol_entry_empty, IH. destruct (parse_vol_entries m rest); reflexivity.
 Qed.
 
 (** the inactive entries yield no volume *)
-Lemma realize_volumes_app pc sat : forall a b,
-  realize_volumes pc sat (a ++ b)
-  = (x <- realize_volumes pc sat a ;; y <- realize_volumes pc sat b ;; Ok (x ++ y)).
+Lemma realize_volumes_slots pc sat P AP : forall l,
+  realize_volumes pc sat (map (ve_at P AP) l)
+  = realize_volumes pc sat (map (fun va => ve_of (fst va) (snd va))
+                                (filter_map (fun i => slot_lookup i (lp_slots P) (combine (lp_vols P) AP)) l)).
 Proof.
-  induction a as [|v t IH]; intros b; cbn [app realize_volumes].
-  - cbn [bind]. destruct (realize_volumes pc sat b); reflexivity.
-  - destruct (ve_type v =? 0); [apply IH|].
-    destruct (get_segment pc sat (ve_start v)) as [dir| |]; cbn [bind]; try reflexivity.
-    destruct (file_entries pc sat dir) as [es| |]; cbn [bind]; try reflexivity.
-    rewrite IH. destruct (realize_volumes pc sat t) as [x| |]; cbn [bind]; try reflexivity.
-    destruct (realize_volumes pc sat b) as [y| |]; cbn [bind]; reflexivity.
+  induction l as [|i t IH]; [reflexivity|]. cbn [map filter_map]. unfold ve_at at 1.
+  destruct (slot_lookup i (lp_slots P) (combine (lp_vols P) AP)) as [va|].
+  - cbn [map realize_volumes]. rewrite IH. reflexivity.
+  - cbn [realize_volumes ve_empty ve_type]. exact IH.
 Qed.
-Lemma realize_volumes_empties pc sat m : realize_volumes pc sat (repeat ve_empty m) = Ok [].
-Proof. induction m as [|m IH]; [reflexivity|]. cbn [repeat realize_volumes ve_empty ve_type]. exact IH. Qed.
 
 (** * One partition *)
 Definition sat_of (items : list item) : list link :=
   match akai_decode (sat_words items) with Ok t => t | _ => [] end.
 Definition part_of (P : lpartition) (AP : apartition) (o : Z) : partition :=
   {| p_off := o; p_sectors := lp_sectors P;
-     p_vols := map (fun va => ve_of (fst va) (snd va)) (combine (lp_vols P) AP)
-               ++ repeat ve_empty (100 - length (lp_vols P));
+     p_vols := map (ve_at P AP) (zfrom 0 100);
      p_sat := sat_of (part_items P AP) |}.
 
 Section Partition.
@@ -785,17 +821,19 @@ Lemma pa_vols : Forall (fun va => vol_alloc_ok items (fst va) (snd va)) vas. Pro
 Lemma pa_vols_ok : Forall vol_ok vas.
 Proof. eapply Forall_impl; [|exact pa_vols]. intros va (A & B & _). split; assumption. Qed.
 
+Lemma pa_slots_len : length (lp_slots P) = length vas.
+Proof. destruct Hok as (_ & _ & H & _). rewrite pa_len_vas. exact H. Qed.
+Lemma pa_slots : slots_ok (lp_slots P). Proof. apply Hok. Qed.
+
+Lemma zlen_vol_slot i : zlen (vol_slot_bytes P AP i) = 16.
+Proof.
+  unfold vol_slot_bytes. destruct (slot_lookup i (lp_slots P) vas) as [va|] eqn:E; [|reflexivity].
+  apply slot_lookup_in in E. pose proof pa_vols_ok as HF. rewrite Forall_forall in HF.
+  destruct (HF va E) as [(Hl & _) _]. now apply zlen_vol_entry.
+Qed.
 Lemma zlen_vol_table : zlen (vol_table P AP) = 1600.
 Proof.
-  destruct Hok as (_ & _ & H100 & _). unfold vol_table. rewrite zlen_app.
-  rewrite (zlen_concat_const _ 16).
-  - unfold zlen at 1. rewrite pa_len_vas.
-    assert (E : zlen (concat (repeat EMPTY_VOL_ENTRY (100 - length (lp_vols P)))) = 16 * Z.of_nat (100 - length (lp_vols P))).
-    { generalize (100 - length (lp_vols P))%nat as m. induction m as [|m IH]; [reflexivity|].
-      cbn [repeat concat]. rewrite zlen_app, IH, zlen_empty_vol. lia. }
-    rewrite E. lia.
-  - intros va Hva. pose proof pa_vols_ok as HF. rewrite Forall_forall in HF. destruct (HF va Hva) as [(Hl & _) _].
-    now apply zlen_vol_entry.
+  unfold vol_table. rewrite (zlen_concat_const _ 16) by (intros; apply zlen_vol_slot). reflexivity.
 Qed.
 Lemma zlen_sat_bytes : zlen (concat (map le16 (sat_words items))) = 2 * SAT_ENTRIES.
 Proof. rewrite (zlen_concat_const _ 2) by (intros; reflexivity). now rewrite sat_words_len. Qed.
@@ -870,12 +908,10 @@ Proof.
     rewrite (slice_skip 1600 (vol_table P AP) _ 1600 _ 0 (HDR_BYTES - 1802)) by (try exact zlen_vol_table; lia).
     apply slice_exact. rewrite zlen_sat_bytes. reflexivity. }
   rewrite E0, E2, E3, E4, E200, E201, Ev, Es. rewrite str_eqb_refl. cbn [Z.eqb andb negb].
-  assert (Epv : parse_vol_entries 100 (vol_table P AP)
-                = Ok (map (fun va => ve_of (fst va) (snd va)) vas ++ repeat ve_empty (100 - length (lp_vols P)))).
-  { destruct Hok as (_ & _ & H100 & _). unfold vol_table.
-    replace 100%nat with (length vas + (100 - length (lp_vols P)))%nat at 1 by (rewrite pa_len_vas; lia).
-    rewrite parse_vol_entries_app by exact pa_vols_ok.
-    rewrite <- (app_nil_r (concat (repeat _ _))). rewrite parse_vol_entries_empties. reflexivity. }
+  assert (Epv : parse_vol_entries 100 (vol_table P AP) = Ok (map (ve_at P AP) (zfrom 0 100))).
+  { unfold vol_table. change 100%nat with (length (zfrom 0 100) + 0)%nat at 1.
+    rewrite <- (app_nil_r (concat _)). rewrite (parse_vol_slots P AP pa_vols_ok).
+    cbn [parse_vol_entries bind]. now rewrite app_nil_r. }
   rewrite Epv. cbn [bind]. rewrite words_le16, decode_written. cbn [bind].
   destruct (Z.leb_spec n 0); [lia|]. reflexivity.
 Qed.
@@ -1046,6 +1082,10 @@ Lemma Forall_znth {A} (P : A -> Prop) d l i : Forall P l -> 0 <= i < zlen l -> P
 Proof.
   intros H Hi. rewrite Forall_forall in H. apply H. unfold znth. apply nth_In. unfold zlen in Hi. lia.
 Qed.
+Lemma filter_map_app {A B} (f : A -> option B) : forall a b, filter_map f (a ++ b) = filter_map f a ++ filter_map f b.
+Proof.
+  induction a as [|x t IH]; intros b; [reflexivity|]. cbn [app filter_map]. destruct (f x); cbn [app]; now rewrite IH.
+Qed.
 
 Definition fe_of (fa : lsample * list Z) : fentry :=
   {| fe_name := ls_name (fst fa); fe_type := ls_type (fst fa); fe_size := zlen (file_body (fst fa));
@@ -1054,16 +1094,27 @@ Definition child_of (f : lsample) : child := CSample (sample_of (ls_name f) f).
 Definition volume_of (V : lvolume) : volume :=
   {| v_name := lv_name V; v_type := lv_type V; v_children := map child_of (lv_files V) |}.
 
-Lemma zlen_dir_entry f secs : name_ok (ls_name f) -> zlen (dir_entry f secs) = 24.
-Proof. intros (H & _). unfold dir_entry. rewrite !zlen_app, zlen_pad_name, zlen_le24, zlen_le16 by assumption. reflexivity. Qed.
-Lemma dir_entry_is_entry f secs : name_ok (ls_name f) -> is_entry (dir_entry f secs).
+Lemma zlen_entry_name e secs : entry_alloc_ok e secs -> zlen (entry_name_bytes e) = 12.
 Proof.
-  intros Hn. split; [now apply zlen_dir_entry|]. pose proof Hn as (Hl & _).
-  unfold dir_entry. rewrite u16_app_l by (try rewrite zlen_pad_name by assumption; lia).
-  pose proof (pad_name_range _ Hn) as HF. unfold u16.
-  pose proof (Forall_znth _ 0 _ 8 HF ltac:(rewrite zlen_pad_name by assumption; lia)) as H8.
-  pose proof (Forall_znth _ 0 _ (8 + 1) HF ltac:(rewrite zlen_pad_name by assumption; lia)) as H9.
-  cbn beta in H8, H9. unfold TABLE_END_FLAG. lia.
+  destruct e as [f|g]; cbn [entry_alloc_ok entry_name_bytes].
+  - intros (((Hl & _) & _) & _). now apply zlen_pad_name.
+  - intros ((Hl & _) & _). exact Hl.
+Qed.
+Lemma zlen_dir_entry e secs : entry_alloc_ok e secs -> zlen (dir_entry e secs) = 24.
+Proof.
+  intros H. unfold dir_entry. rewrite !zlen_app, (zlen_entry_name e secs H), zlen_le24, zlen_le16. reflexivity.
+Qed.
+Lemma dir_entry_is_entry e secs : entry_alloc_ok e secs -> is_entry (dir_entry e secs).
+Proof.
+  intros H. split; [now apply zlen_dir_entry|]. pose proof (zlen_entry_name e secs H) as Hl.
+  unfold dir_entry. rewrite u16_app_l by lia.
+  destruct e as [f|g]; cbn [entry_alloc_ok entry_name_bytes] in *.
+  - destruct H as ((Hn & _) & _).
+    pose proof (pad_name_range _ Hn) as HF. unfold u16.
+    pose proof (Forall_znth _ 0 _ 8 HF ltac:(rewrite Hl; lia)) as H8.
+    pose proof (Forall_znth _ 0 _ (8 + 1) HF ltac:(rewrite Hl; lia)) as H9.
+    cbn beta in H8, H9. unfold TABLE_END_FLAG. lia.
+  - destruct H as ((_ & _ & Hf & _) & _). unfold u16. change (8 + 1) with 9. exact Hf.
 Qed.
 Lemma END_ENTRY_flag r : u16 (END_ENTRY ++ r) 8 = TABLE_END_FLAG.
 Proof. reflexivity. Qed.
@@ -1077,6 +1128,32 @@ Proof.
   rewrite E. rewrite parse_sample_written by assumption. reflexivity.
 Qed.
 
+(** the type byte of a ghost: not a sample's, not a program's; if the tool knows it at all it is
+    a drum, QL or effects file *)
+Lemma is_file_type_other t : is_file_type t = true -> ~ In t [115; 243; 112; 240] -> In t [100; 113; 120].
+Proof.
+  intros H Hn. cbn [In] in *.
+  destruct (Z.eqb_spec t 100) as [->|N1]; [now left|].
+  destruct (Z.eqb_spec t 113) as [->|N2]; [right; now left|].
+  destruct (Z.eqb_spec t 120) as [->|N3]; [right; right; now left|].
+  exfalso. apply Hn. unfold is_file_type in H. lia.
+Qed.
+Lemma not_sample_program t : ~ In t [115; 243; 112; 240] ->
+  is_sample_type t = false /\ is_program_type t = false.
+Proof. intros Hn. cbn [In] in Hn. unfold is_sample_type, is_program_type. split; lia. Qed.
+
+(** the samples among valid entries are valid samples *)
+Lemma samples_of_entries_ok : forall es (fs : list (list Z)),
+  Forall (fun ea => entry_alloc_ok (fst ea) (snd ea)) (combine es fs) -> length fs = length es ->
+  Forall sample_ok (samples_of es).
+Proof.
+  induction es as [|e t IH]; intros [|x u] HF Hl; cbn [length] in Hl; try discriminate; [constructor|].
+  cbn [combine] in HF. inversion HF as [|? ? He HF']; subst. cbn [fst snd] in He.
+  destruct e as [f|g]; cbn [samples_of].
+  - constructor; [apply He|]. apply (IH u); [assumption|lia].
+  - apply (IH u); [assumption|lia].
+Qed.
+
 Section Volume.
 Context (P : lpartition) (AP : apartition) (Hok : part_alloc_ok P AP).
 Context (V : lvolume) (AV : avolume) (Hva : In (V, AV) (combine (lp_vols P) AP)).
@@ -1084,7 +1161,7 @@ Notation items := (part_items P AP).
 Notation n := (lp_sectors P).
 Notation pc := (partition_bytes P AP).
 Notation sat := (sat_of items).
-Notation fas := (combine (lv_files V) (av_files AV)).
+Notation eas := (combine (lv_entries V) (av_files AV)).
 
 Lemma vol_valid : vol_alloc_ok items V AV.
 Proof. pose proof (pa_vols P AP Hok) as H. rewrite Forall_forall in H. exact (H _ Hva). Qed.
@@ -1093,64 +1170,127 @@ Proof.
   intros H. unfold part_items. apply in_concat. exists (vol_items V AV). split; [|assumption].
   apply in_map_iff. exists (V, AV). split; [reflexivity|assumption].
 Qed.
-Lemma len_fas : length fas = length (lv_files V).
+Lemma len_eas : length eas = length (lv_entries V).
 Proof. destruct vol_valid as (_ & _ & H & _). rewrite combine_length. lia. Qed.
-Lemma fas_ok : Forall (fun fa => file_alloc_ok (fst fa) (snd fa)) fas.
+Lemma eas_ok : Forall (fun ea => entry_alloc_ok (fst ea) (snd ea)) eas.
 Proof. apply vol_valid. Qed.
+Lemma entry_item_in ea : In ea eas ->
+  In {| it_dir := false; it_secs := snd ea; it_data := entry_body (fst ea) |} items.
+Proof. intros H. apply vol_items_in. right. apply in_map_iff. exists ea. split; [reflexivity|assumption]. Qed.
 
-(** a file: its chain resolves to its sectors, which hold its body *)
-Lemma file_segment fa : In fa fas ->
-  get_segment pc sat (hd 0 (snd fa)) = Ok (pad_to (file_body (fst fa)) (SECTOR * zlen (snd fa))).
+(** an entry with sectors (sample or ghost): its chain resolves to its sectors, which hold its body *)
+Lemma entry_segment ea : In ea eas -> snd ea <> [] -> zlen (entry_body (fst ea)) <= SECTOR * zlen (snd ea) ->
+  get_segment pc sat (hd 0 (snd ea)) = Ok (pad_to (entry_body (fst ea)) (SECTOR * zlen (snd ea))).
 Proof.
-  intros Hfa. pose proof fas_ok as HF. rewrite Forall_forall in HF. destruct (HF fa Hfa) as (Hs & Hne & Hfit).
-  set (it := {| it_dir := false; it_secs := snd fa; it_data := file_body (fst fa) |}).
-  assert (Hit : In it items).
-  { apply vol_items_in. right. apply in_map_iff. exists fa. split; [reflexivity|assumption]. }
+  intros Hea Hne Hfit.
+  set (it := {| it_dir := false; it_secs := snd ea; it_data := entry_body (fst ea) |}).
+  assert (Hit : In it items) by now apply entry_item_in.
   pose proof (file_chain_resolves items n it (pa_nodup P AP Hok) (pa_secs_in P AP Hok) ltac:(apply (pa_size P AP Hok)) Hit eq_refl Hne) as Hc.
   pose proof (item_content P AP Hok it Hit Hfit) as Hcont.
   unfold it in Hc, Hcont. cbn [it_secs it_data] in Hc, Hcont.
   rewrite (get_segment_of _ _ pc _ _ (decode_written P AP Hok) (sat_words_len items) Hc).
   f_equal. exact Hcont.
 Qed.
-
-Lemma kept_written fa : In fa fas -> kept pc sat (dir_entry (fst fa) (snd fa)) = Ok [fe_of fa].
+Lemma entry_start ea : In ea eas -> snd ea <> [] -> 3 <= hd 0 (snd ea) < n.
 Proof.
-  intros Hfa. pose proof fas_ok as HF. rewrite Forall_forall in HF. destruct (HF fa Hfa) as (Hs & Hne & Hfit).
+  intros Hea Hne.
+  apply (secs_in_item items n {| it_dir := false; it_secs := snd ea; it_data := entry_body (fst ea) |}).
+  - exact (pa_secs_in P AP Hok).
+  - now apply entry_item_in.
+  - cbn [it_secs]. destruct (snd ea); [congruence|now left].
+Qed.
+
+(** a sample's entry is kept, with the file's content *)
+Lemma kept_sample f secs : In (LSample f, secs) eas ->
+  kept pc sat (dir_entry (LSample f) secs) = Ok [fe_of (f, secs)].
+Proof.
+  intros Hfa. pose proof eas_ok as HF. rewrite Forall_forall in HF. pose proof (HF _ Hfa) as Hea.
+  cbn [fst snd entry_alloc_ok] in Hea. destruct Hea as (Hs & Hne & Hfit).
   pose proof Hs as (Hn & _ & Hty & _). pose proof Hn as (Hl & _).
-  set (e := dir_entry (fst fa) (snd fa)).
-  assert (E1 : firstn 12 e = akai_pad_name (ls_name (fst fa))).
-  { unfold e, dir_entry. apply firstn_here. apply zlen_length. now rewrite zlen_pad_name. }
-  assert (E16 : u8 e 16 = ls_type (fst fa)).
-  { unfold e, dir_entry. sh u8_shift 12 16. sh u8_shift 4 4. reflexivity. }
-  assert (E17 : u24 e 17 = zlen (file_body (fst fa))).
-  { unfold e, dir_entry. sh u24_shift 12 17. sh u24_shift 4 5. sh u24_shift 1 1. apply u24_le24. }
-  assert (E20 : u16 e 20 = hd 0 (snd fa)).
-  { unfold e, dir_entry. sh u16_shift 12 20. sh u16_shift 4 8. sh u16_shift 1 4. sh u16_shift 3 3. apply u16_le16. }
+  set (e := dir_entry (LSample f) secs).
+  assert (E1 : firstn 12 e = akai_pad_name (ls_name f)).
+  { unfold e, dir_entry. cbn [entry_name_bytes]. apply firstn_here. apply zlen_length. now rewrite zlen_pad_name. }
+  assert (E16 : u8 e 16 = ls_type f).
+  { unfold e, dir_entry. cbn [entry_name_bytes entry_type]. sh u8_shift 12 16. sh u8_shift 4 4. reflexivity. }
+  assert (E17 : u24 e 17 = zlen (file_body f)).
+  { unfold e, dir_entry. cbn [entry_name_bytes entry_type entry_size].
+    sh u24_shift 12 17. sh u24_shift 4 5. sh u24_shift 1 1. apply u24_le24. }
+  assert (E20 : u16 e 20 = hd 0 secs).
+  { unfold e, dir_entry. cbn [entry_name_bytes entry_type entry_size].
+    sh u16_shift 12 20. sh u16_shift 4 8. sh u16_shift 1 4. sh u16_shift 3 3. apply u16_le16. }
   unfold kept, parse_fentry. rewrite E1, E16, E17, E20. rewrite akai_name_back by assumption.
-  assert (Eft : is_file_type (ls_type (fst fa)) = true) by (destruct Hty as [-> | ->]; reflexivity).
-  rewrite Eft. cbn [negb]. rewrite file_segment by assumption. cbn [bind].
-  assert (Hst : 3 <= hd 0 (snd fa) < n).
-  { apply (secs_in_item items n {| it_dir := false; it_secs := snd fa; it_data := file_body (fst fa) |}).
-    - exact (pa_secs_in P AP Hok).
-    - apply vol_items_in. right. apply in_map_iff. exists fa. split; [reflexivity|assumption].
-    - cbn [it_secs]. destruct (snd fa); [congruence|now left]. }
-  cbn [fe_start]. destruct (Z.gtb_spec (hd 0 (snd fa)) 0) as [_|Hc]; [|lia].
-  do 2 f_equal. unfold fe_of. f_equal.
+  assert (Eft : is_file_type (ls_type f) = true) by (destruct Hty as [-> | ->]; reflexivity).
+  rewrite Eft. cbn [negb].
+  pose proof (entry_segment (LSample f, secs) Hfa Hne Hfit) as Hseg. cbn [fst snd entry_body] in Hseg.
+  rewrite Hseg. cbn [bind].
+  pose proof (entry_start _ Hfa Hne) as Hst. cbn [snd] in Hst.
+  cbn [fe_start]. destruct (Z.gtb_spec (hd 0 secs) 0) as [_|Hc]; [|lia].
+  do 2 f_equal. unfold fe_of. cbn [fst snd]. f_equal.
   pose proof (zlen_file_body _ Hs) as Hlen. pose proof Hs as (_ & _ & _ & _ & _ & _ & _ & _ & Hse & Hec & _).
-  unfold wrap_size. destruct (Z.gtb_spec (zlen (file_body (fst fa))) 0) as [_|Hc]; [|unfold SAMPLE_HDR in *; lia].
+  unfold wrap_size. destruct (Z.gtb_spec (zlen (file_body f)) 0) as [_|Hc]; [|unfold SAMPLE_HDR in *; lia].
   unfold pad_to. now apply slice_here.
 Qed.
 
-Lemma kept_all_written : forall l, incl l fas ->
-  kept_all pc sat (map (fun fa => dir_entry (fst fa) (snd fa)) l) = Ok (map fe_of l).
+(** a ghost's entry yields nothing that becomes a child of the volume: it is skipped when its
+    name bytes are not AKAI text or its type is unknown; a drum / QL / effects file is kept as a
+    file entry (its chain resolves) that is neither a sample nor a program *)
+Lemma kept_ghost g secs : In (LGhost g, secs) eas ->
+  exists k, kept pc sat (dir_entry (LGhost g) secs) = Ok k /\ filter_map realize_file k = [].
 Proof.
-  induction l as [|fa t IH]; intros Hi; [reflexivity|]. cbn [map kept_all].
-  rewrite kept_written by (apply Hi; now left). cbn [bind].
-  rewrite IH by (intros x Hx; apply Hi; now right). reflexivity.
+  intros Hfa. pose proof eas_ok as HF. rewrite Forall_forall in HF. pose proof (HF _ Hfa) as Hea.
+  cbn [fst snd entry_alloc_ok] in Hea.
+  destruct Hea as ((Hl & Hnb & Hflag & Hty & Hnot & Hsz & Hdb) & Hfit & Hknown).
+  set (e := dir_entry (LGhost g) secs).
+  assert (E1 : firstn 12 e = lg_raw_name g).
+  { unfold e, dir_entry. cbn [entry_name_bytes]. apply firstn_here. now apply zlen_length. }
+  assert (E16 : u8 e 16 = lg_type g).
+  { unfold e, dir_entry. cbn [entry_name_bytes entry_type]. sh u8_shift 12 16. sh u8_shift 4 4. reflexivity. }
+  assert (E17 : u24 e 17 = lg_size g).
+  { unfold e, dir_entry. cbn [entry_name_bytes entry_type entry_size].
+    sh u24_shift 12 17. sh u24_shift 4 5. sh u24_shift 1 1. apply u24_le24. }
+  assert (E20 : u16 e 20 = hd 0 secs).
+  { unfold e, dir_entry. cbn [entry_name_bytes entry_type entry_size].
+    sh u16_shift 12 20. sh u16_shift 4 8. sh u16_shift 1 4. sh u16_shift 3 3. apply u16_le16. }
+  unfold kept, parse_fentry. rewrite E1, E16, E17, E20.
+  destruct (akai_name (lg_raw_name g)) as [nm| |]; try (exists []; split; reflexivity).
+  destruct (is_file_type (lg_type g)) eqn:Eft; cbn [negb].
+  2:{ exists []. split; reflexivity. }
+  pose proof (Hknown (is_file_type_other _ Eft Hnot)) as Hne.
+  pose proof (entry_segment (LGhost g, secs) Hfa Hne Hfit) as Hseg. cbn [fst snd entry_body] in Hseg.
+  rewrite Hseg. cbn [bind].
+  pose proof (entry_start _ Hfa Hne) as Hst. cbn [snd] in Hst.
+  cbn [fe_start]. destruct (Z.gtb_spec (hd 0 secs) 0) as [_|Hc]; [|lia].
+  eexists. split; [reflexivity|]. cbn [filter_map]. unfold realize_file. cbn [fe_type].
+  destruct (not_sample_program _ Hnot) as [-> ->]. reflexivity.
+Qed.
+
+(** the entries one after the other: the children they yield are the samples, in order *)
+Lemma kept_all_written : forall l, incl l eas ->
+  exists es, kept_all pc sat (map (fun ea => dir_entry (fst ea) (snd ea)) l) = Ok es /\
+             filter_map realize_file es = map child_of (samples_of (map fst l)).
+Proof.
+  induction l as [|[e secs] t IH]; intros Hi; [exists []; split; reflexivity|].
+  destruct (IH ltac:(intros x Hx; apply Hi; now right)) as (es & Hes & Hch).
+  assert (Hin : In (e, secs) eas) by (apply Hi; now left).
+  cbn [map kept_all fst snd]. destruct e as [f|g].
+  - rewrite (kept_sample f secs Hin). cbn [bind]. rewrite Hes. cbn [bind]. eexists. split; [reflexivity|].
+    cbn [app filter_map samples_of map].
+    assert (Hs : sample_ok f).
+    { pose proof eas_ok as HF. rewrite Forall_forall in HF. apply (HF _ Hin). }
+    rewrite (realize_file_written (f, secs) Hs). cbn [fst]. f_equal. exact Hch.
+  - destruct (kept_ghost g secs Hin) as (k & Hk & Hkc). rewrite Hk. cbn [bind]. rewrite Hes. cbn [bind].
+    eexists. split; [reflexivity|]. rewrite filter_map_app, Hkc. cbn [app samples_of]. exact Hch.
+Qed.
+
+Lemma zlen_dir_table : zlen (dir_table V AV) = 24 * (zlen (lv_entries V) + 1).
+Proof.
+  unfold dir_table. rewrite zlen_app, zlen_END_ENTRY. rewrite (zlen_concat_const _ 24).
+  - unfold zlen at 1. rewrite len_eas. unfold zlen. lia.
+  - intros ea Hea. pose proof eas_ok as HF. rewrite Forall_forall in HF. now apply zlen_dir_entry, HF.
 Qed.
 
 (** the directory run resolves to the table that was written *)
-Lemma dir_segment : exists k, 24 * (zlen (lv_files V) + 1) <= SECTOR * Z.of_nat (S k) /\
+Lemma dir_segment : exists k, 24 * (zlen (lv_entries V) + 1) <= SECTOR * Z.of_nat (S k) /\
   get_segment pc sat (hd 0 (av_dir AV)) = Ok (pad_to (dir_table V AV) (SECTOR * Z.of_nat (S k))).
 Proof.
   destruct vol_valid as (_ & _ & Hlen & (d & k & Ed & H4 & Hfit & Hb & Ha) & _).
@@ -1164,47 +1304,33 @@ Proof.
   unfold it at 1. cbn [it_secs]. f_equal.
   assert (Ez : zlen (av_dir AV) = Z.of_nat (S k)) by (rewrite Ed; apply zlen_zfrom).
   rewrite <- Ez. apply (item_content P AP Hok it Hit). unfold it. cbn [it_data it_secs]. rewrite Ez.
-  assert (Et : zlen (dir_table V AV) = 24 * (zlen (lv_files V) + 1)).
-  { unfold dir_table. rewrite zlen_app, zlen_END_ENTRY. rewrite (zlen_concat_const _ 24).
-    - unfold zlen at 1. rewrite len_fas. unfold zlen. lia.
-    - intros fa Hfa. pose proof fas_ok as HF. rewrite Forall_forall in HF. destruct (HF fa Hfa) as ((Hn & _) & _).
-      now apply zlen_dir_entry. }
-  lia.
+  rewrite zlen_dir_table. lia.
 Qed.
 
-(** (c) the directory parses to exactly the written entries *)
+(** (c) the directory parses to entries whose children are exactly the written samples *)
 Lemma file_entries_written k :
-  24 * (zlen (lv_files V) + 1) <= SECTOR * Z.of_nat (S k) ->
-  file_entries pc sat (pad_to (dir_table V AV) (SECTOR * Z.of_nat (S k))) = Ok (map fe_of fas).
+  24 * (zlen (lv_entries V) + 1) <= SECTOR * Z.of_nat (S k) ->
+  exists es, file_entries pc sat (pad_to (dir_table V AV) (SECTOR * Z.of_nat (S k))) = Ok es /\
+             filter_map realize_file es = map child_of (lv_files V).
 Proof.
   intros Hfit. unfold file_entries.
-  set (es := map (fun fa => dir_entry (fst fa) (snd fa)) fas).
-  assert (Hes : Forall is_entry es).
-  { apply Forall_forall. intros e He. apply in_map_iff in He as (fa & <- & Hfa).
-    pose proof fas_ok as HF. rewrite Forall_forall in HF. destruct (HF fa Hfa) as ((Hn & _) & _).
-    now apply dir_entry_is_entry. }
-  assert (Et : zlen (dir_table V AV) = 24 * (zlen (lv_files V) + 1)).
-  { unfold dir_table. rewrite zlen_app, zlen_END_ENTRY. rewrite (zlen_concat_const _ 24).
-    - unfold zlen at 1. rewrite len_fas. unfold zlen. lia.
-    - intros fa Hfa. pose proof fas_ok as HF. rewrite Forall_forall in HF. destruct (HF fa Hfa) as ((Hn & _) & _).
-      now apply zlen_dir_entry. }
+  set (ds := map (fun ea => dir_entry (fst ea) (snd ea)) eas).
+  assert (Hds : Forall is_entry ds).
+  { apply Forall_forall. intros e He. apply in_map_iff in He as (ea & <- & Hea).
+    pose proof eas_ok as HF. rewrite Forall_forall in HF. now apply dir_entry_is_entry, HF. }
+  pose proof zlen_dir_table as Et.
   rewrite zlen_pad_to by lia.
-  assert (Les : length es = length (lv_files V)) by (unfold es; rewrite map_length; apply len_fas).
+  assert (Lds : length ds = length (lv_entries V)) by (unfold ds; rewrite map_length; apply len_eas).
   replace (Z.to_nat (SECTOR * Z.of_nat (S k) / 24))
-    with (length es + (Z.to_nat (SECTOR * Z.of_nat (S k) / 24) - length es))%nat
-    by (rewrite Les; unfold zlen, SECTOR in *; lia).
-  unfold pad_to, dir_table. fold es. rewrite <- !app_assoc.
+    with (length ds + (Z.to_nat (SECTOR * Z.of_nat (S k) / 24) - length ds))%nat
+    by (rewrite Lds; unfold zlen, SECTOR in *; lia).
+  unfold pad_to, dir_table. fold ds. rewrite <- !app_assoc.
   rewrite entries_loop_decompose by assumption.
-  unfold es. rewrite kept_all_written by apply incl_refl. cbn [bind].
-  rewrite entries_loop_end by apply END_ENTRY_flag. cbn [bind]. now rewrite app_nil_r.
-Qed.
-
-Lemma children_written : filter_map realize_file (map fe_of fas) = map child_of (lv_files V).
-Proof.
-  rewrite <- (map_fst_combine (lv_files V) (av_files AV)) at 2 by apply vol_valid.
-  pose proof fas_ok as HF. induction fas as [|fa t IH]; [reflexivity|].
-  inversion HF as [|? ? (Hs & _) HF']; subst. cbn [map filter_map].
-  rewrite realize_file_written by assumption. f_equal. now apply IH.
+  destruct (kept_all_written eas (incl_refl _)) as (es & Hes & Hch).
+  unfold ds. rewrite Hes. cbn [bind].
+  rewrite entries_loop_end by apply END_ENTRY_flag. cbn [bind]. rewrite app_nil_r.
+  exists es. split; [reflexivity|]. rewrite Hch. unfold lv_files.
+  rewrite map_fst_combine by apply vol_valid. reflexivity.
 Qed.
 End Volume.
 
@@ -1381,16 +1507,20 @@ Proof.
   destruct (vol_valid P AP Hok V AV Hva) as (_ & Hty & _).
   destruct (Z.eqb_spec (lv_type V) 0) as [Hc|_]; [lia|].
   destruct (dir_segment P AP Hok V AV Hva) as (k & Hfit & ->). cbn [bind].
-  rewrite (file_entries_written P AP Hok V AV Hva k Hfit). cbn [bind].
+  destruct (file_entries_written P AP Hok V AV Hva k Hfit) as (es & -> & Hch). cbn [bind].
   rewrite IH by (intros x Hx; apply Hi; now right). cbn [bind].
-  rewrite (children_written P AP Hok V AV Hva). reflexivity.
+  rewrite Hch. reflexivity.
 Qed.
 Lemma realize_volumes_written o :
   realize_volumes pc (p_sat (part_of P AP o)) (p_vols (part_of P AP o)) = Ok (map volume_of (lp_vols P)).
 Proof.
-  cbn [part_of p_sat p_vols]. rewrite realize_volumes_app, realize_volumes_sub by apply incl_refl.
-  cbn [bind]. rewrite realize_volumes_empties. cbn [bind]. rewrite app_nil_r.
-  rewrite <- (map_map fst volume_of). rewrite map_fst_combine by apply Hok. reflexivity.
+  cbn [part_of p_sat p_vols]. rewrite realize_volumes_slots.
+  rewrite slots_collect.
+  - rewrite realize_volumes_sub by apply incl_refl.
+    rewrite <- (map_map fst volume_of). rewrite map_fst_combine by apply Hok. reflexivity.
+  - exact (pa_slots_len P AP Hok).
+  - apply (pa_slots P AP Hok).
+  - eapply Forall_impl; [|apply (pa_slots P AP Hok)]. intros s Hs. cbn beta in *. lia.
 Qed.
 Lemma part_content_written pre post o : o = zlen pre ->
   part_content (pre ++ pc ++ post) (part_of P AP o) = pc.
@@ -1404,7 +1534,7 @@ Proof.
   intros HV. rewrite <- (map_fst_combine (lp_vols P) AP) in HV by apply Hok.
   apply in_map_iff in HV as ([V' AV] & E & Hva). cbn [fst] in E. subst V'.
   destruct (vol_valid P AP Hok V AV Hva) as (_ & _ & Hl & _ & HF).
-  apply (Forall_combine_fst sample_ok _ _ Hl). revert HF. apply Forall_impl. intros fa (H & _). exact H.
+  exact (samples_of_entries_ok _ _ HF Hl).
 Qed.
 End PartitionExport.
 
@@ -1540,29 +1670,35 @@ Proof.
   { apply Forall_forall. intros x Hx. apply in_map_iff in Hx as (i & <- & _). lia. }
   split; [lia|]. split; [apply ex_loops_ok|]. split; [apply ex_loops_ok|lia].
 Qed.
+Lemma ex_kick_alloc s : file_alloc_ok ex_kick [s].
+Proof. split; [exact ex_kick_ok|]. split; [discriminate|]. rewrite (zlen_file_body _ ex_kick_ok). vm_compute. congruence. Qed.
+Lemma ex_snare_alloc s1 s2 : file_alloc_ok ex_snare [s1; s2].
+Proof. split; [exact ex_snare_ok|]. split; [discriminate|]. rewrite (zlen_file_body _ ex_snare_ok). vm_compute. congruence. Qed.
 Lemma ex_alloc_ok : image_alloc_ok ex_logical ex_alloc.
 Proof.
   split; [reflexivity|]. constructor; [|constructor]. cbn [fst snd].
   set (P := {| lp_sectors := 9; lp_vols := _ |}). set (AP := [_]).
   assert (Ea : all_secs (part_items P AP) = [4; 6; 8; 7]) by reflexivity.
   assert (Ed : dir_secs (part_items P AP) = [4]) by reflexivity.
-  unfold part_alloc_ok. rewrite Ea. cbn [lp_sectors lp_vols P]. unfold SAT_ENTRIES.
-  split; [lia|]. split; [reflexivity|]. split; [cbn; lia|]. split.
+  unfold part_alloc_ok. rewrite Ea. cbn [lp_sectors lp_vols lp_slots P]. unfold SAT_ENTRIES.
+  split; [lia|]. split; [reflexivity|]. split; [reflexivity|]. split.
+  { split; [cbn; lia|repeat constructor; lia]. }
+  split.
   { repeat constructor; cbn [In]; lia. }
   split; [repeat constructor; lia|].
   constructor; [|constructor]. cbn [fst snd]. unfold vol_alloc_ok. rewrite Ed.
-  cbn [lv_name lv_type lv_files av_dir av_files].
+  cbn [lv_name lv_type lv_entries av_dir av_files].
   split; [apply ex_name_ok; [vm_compute; congruence|reflexivity|cbn; lia]|].
   split; [now right|]. split; [reflexivity|]. split.
   { exists 4, O. split; [reflexivity|]. split; [lia|]. split; [vm_compute; congruence|]. cbn [In]. lia. }
-  constructor; [|constructor; [|constructor]]; cbn [fst snd]; unfold file_alloc_ok.
-  - split; [exact ex_kick_ok|]. split; [discriminate|]. rewrite (zlen_file_body _ ex_kick_ok). vm_compute. congruence.
-  - split; [exact ex_snare_ok|]. split; [discriminate|]. rewrite (zlen_file_body _ ex_snare_ok). vm_compute. congruence.
+  constructor; [|constructor; [|constructor]]; cbn [fst snd entry_alloc_ok].
+  - apply ex_kick_alloc.
+  - apply ex_snare_alloc.
 Qed.
 Lemma ex_plain : image_plain ex_logical.
 Proof.
   constructor; [|constructor]. split; [cbn; repeat constructor; intros []|].
-  constructor; [|constructor]. unfold volume_plain. cbn [lv_files map ex_kick ex_snare ls_name].
+  constructor; [|constructor]. unfold volume_plain, lv_files. cbn [lv_entries samples_of map ex_kick ex_snare ls_name].
   assert (E1 : make_export_name [75; 73; 67; 75] true = [75; 73; 67; 75]) by reflexivity.
   assert (E2 : make_export_name [83; 78; 65; 82; 69; 46; 49] true = [83; 78; 65; 82; 69; 46; 49]) by reflexivity.
   rewrite E1, E2. split.
@@ -1573,6 +1709,192 @@ Lemma ex_export :
   akai_export (akai_serialise ex_logical ex_alloc) = Ok (expected [[65]] ex_logical).
 Proof. apply akai_export_correct_lemma; [exact ex_alloc_ok|exact ex_plain|reflexivity]. Qed.
 Print Assumptions akai_export_correct_lemma.
+
+(** * The first version (packed slots, sample files only) as a corollary *)
+Lemma combine_map_l {A B C} (f : A -> B) : forall (a : list A) (c : list C),
+  combine (map f a) c = map (fun p => (f (fst p), snd p)) (combine a c).
+Proof. induction a as [|x t IH]; intros [|y u]; cbn [map combine fst snd]; try reflexivity. now rewrite IH. Qed.
+Lemma samples_of_map : forall fs, samples_of (map LSample fs) = fs.
+Proof. induction fs as [|f t IH]; [reflexivity|]. cbn [map samples_of]. now rewrite IH. Qed.
+Lemma zfrom_app : forall n m a, zfrom a (n + m) = zfrom a n ++ zfrom (a + Z.of_nat n) m.
+Proof.
+  induction n as [|n IH]; intros m a.
+  - cbn [plus zfrom app]. f_equal. lia.
+  - cbn [plus zfrom app]. rewrite IH. do 3 f_equal. lia.
+Qed.
+Lemma slot_lookup_absent {A} i : forall slots (vas : list A), ~ In i slots -> slot_lookup i slots vas = None.
+Proof.
+  induction slots as [|s st IH]; intros [|v vt] H; cbn [slot_lookup]; try reflexivity.
+  destruct (Z.eqb_spec s i) as [->|_]; [exfalso; apply H; now left|]. apply IH. intros Hi. apply H. now right.
+Qed.
+Lemma packed_slots_concat {A B} (f : A -> list B) (E : list B) : forall (vas : list A) a,
+  concat (map (fun i => match slot_lookup i (zfrom a (length vas)) vas with Some va => f va | None => E end)
+              (zfrom a (length vas)))
+  = concat (map f vas).
+Proof.
+  induction vas as [|v vt IH]; intros a; [reflexivity|].
+  cbn [length zfrom map concat slot_lookup]. rewrite Z.eqb_refl. f_equal.
+  rewrite <- (IH (a + 1)). f_equal. apply map_ext_in. intros i Hi. apply zfrom_In in Hi.
+  destruct (Z.eqb_spec a i); [lia|reflexivity].
+Qed.
+(** the slots of a packed table are well-formed exactly when there are at most 100 volumes *)
+Lemma increasing_zfrom : forall n a, increasing_from a (zfrom a n).
+Proof. induction n as [|n IH]; intros a; cbn [zfrom increasing_from]; [exact I|]. split; [lia|apply IH]. Qed.
+Lemma slots_ok_packed n : (n <= 100)%nat -> slots_ok (zfrom 0 n).
+Proof.
+  intros H. split; [apply increasing_zfrom|]. apply Forall_forall. intros s Hs. apply zfrom_In in Hs. lia.
+Qed.
+Lemma vol_table_packed P AP :
+  lp_slots P = zfrom 0 (length (lp_vols P)) -> length AP = length (lp_vols P) -> (length (lp_vols P) <= 100)%nat ->
+  vol_table P AP = vol_table_v1 P AP.
+Proof.
+  intros Hs Hl H100. unfold vol_table, vol_table_v1, vol_slot_bytes. rewrite Hs.
+  set (vas := combine (lp_vols P) AP).
+  assert (Hv : length (lp_vols P) = length vas) by (unfold vas; rewrite combine_length; lia).
+  rewrite Hv.
+  replace 100%nat with (length vas + (100 - length vas))%nat at 1 by lia.
+  rewrite zfrom_app, map_app, concat_app. f_equal.
+  - apply (packed_slots_concat (fun va => vol_entry_bytes (fst va) (snd va)) EMPTY_VOL_ENTRY vas 0).
+  - assert (G : forall m c, Z.of_nat (length vas) <= c -> concat (map (fun i => match slot_lookup i (zfrom 0 (length vas)) vas with
+                                                   | Some va => vol_entry_bytes (fst va) (snd va) | None => EMPTY_VOL_ENTRY end) (zfrom c m))
+                          = concat (repeat EMPTY_VOL_ENTRY m)).
+    { induction m as [|m IH]; intros c Hc; [reflexivity|]. cbn [zfrom map concat repeat].
+      rewrite slot_lookup_absent; [|rewrite zfrom_In; lia]. f_equal. apply IH. lia. }
+    apply G. lia.
+Qed.
+Lemma dir_table_ghost_free V AV : volume_ghost_free V -> dir_table V AV = dir_table_v1 V AV.
+Proof.
+  intros H. unfold volume_ghost_free in H. unfold dir_table, dir_table_v1. rewrite H at 1. rewrite combine_map_l, map_map. reflexivity.
+Qed.
+
+Lemma vol_alloc_v1 items V AV : volume_ghost_free V -> vol_alloc_ok_v1 items V AV -> vol_alloc_ok items V AV.
+Proof.
+  intros Hg (Hn & Ht & Hl & Hd & HF).
+  unfold volume_ghost_free in Hg.
+  assert (Ez : length (lv_entries V) = length (lv_files V)) by (rewrite Hg at 1; apply map_length).
+  split; [assumption|]. split; [assumption|]. split; [lia|]. split.
+  - destruct Hd as (d & k & H1 & H2 & H3 & H4 & H5). exists d, k. repeat split; try assumption.
+    unfold zlen in *. lia.
+  - rewrite Hg, combine_map_l. apply Forall_forall. intros ea Hea. apply in_map_iff in Hea as (fa & <- & Hfa).
+    cbn [fst snd entry_alloc_ok]. rewrite Forall_forall in HF. now apply HF.
+Qed.
+Lemma part_alloc_v1 P AP : partition_v1 P -> part_alloc_ok_v1 P AP -> part_alloc_ok P AP.
+Proof.
+  intros [Hs Hg] (H1 & H2 & H3 & H4 & H5 & H6).
+  split; [assumption|]. split; [assumption|]. split; [rewrite Hs; apply zfrom_length|].
+  split; [rewrite Hs; now apply slots_ok_packed|]. split; [assumption|]. split; [assumption|].
+  apply Forall_forall. intros [V AV] Hva. cbn [fst snd]. rewrite Forall_forall in H6, Hg.
+  apply vol_alloc_v1; [|exact (H6 _ Hva)]. apply Hg. apply in_combine_l in Hva. exact Hva.
+Qed.
+Lemma image_alloc_v1 L A : image_v1 L -> image_alloc_ok_v1 L A -> image_alloc_ok L A.
+Proof.
+  intros Hv [Hl HF]. split; [assumption|]. apply Forall_forall. intros [P AP] Hpa. cbn [fst snd].
+  unfold image_v1 in Hv. rewrite Forall_forall in HF, Hv. apply part_alloc_v1; [|exact (HF _ Hpa)]. apply Hv. apply in_combine_l in Hpa. exact Hpa.
+Qed.
+(** the first version's theorem, from the general one *)
+Lemma akai_export_correct_v1_lemma L A pn :
+  image_v1 L -> image_alloc_ok_v1 L A -> image_plain L -> partition_export_names (length L) = Ok pn ->
+  akai_export (akai_serialise L A) = Ok (expected pn L).
+Proof. intros Hv Hok. apply akai_export_correct_lemma. now apply image_alloc_v1. Qed.
+(** ...and on such images the serialiser writes the first version's layout *)
+Lemma v1_layout_lemma P AP : partition_v1 P -> part_alloc_ok_v1 P AP ->
+  vol_table P AP = vol_table_v1 P AP /\
+  forall V AV, In (V, AV) (combine (lp_vols P) AP) -> dir_table V AV = dir_table_v1 V AV.
+Proof.
+  intros [Hs Hg] (_ & Hl & H100 & _). split; [now apply vol_table_packed|].
+  intros V AV Hva. apply dir_table_ghost_free. rewrite Forall_forall in Hg. apply Hg.
+  apply in_combine_l in Hva. exact Hva.
+Qed.
+(** the first example is of that kind *)
+Lemma ex_v1 : image_v1 ex_logical.
+Proof. constructor; [|constructor]. split; [reflexivity|]. constructor; [reflexivity|constructor]. Qed.
+
+(** a ghost whose name field is valid AKAI text (the usual case) meets the conditions on the name bytes *)
+Lemma ghost_named_ok_lemma n ty size data :
+  name_ok n -> is_byte ty -> ~ In ty [115; 243; 112; 240] -> 0 <= size < 16777216 -> Forall is_byte data ->
+  ghost_ok (ghost_named n ty size data).
+Proof.
+  intros Hn Hty Hnot Hsz Hd. pose proof Hn as (Hl & _). pose proof (pad_name_range _ Hn) as HF.
+  pose proof (zlen_pad_name n Hl) as Hz.
+  unfold ghost_ok, ghost_named. cbn [lg_raw_name lg_type lg_size lg_data].
+  split; [assumption|]. split.
+  { revert HF. apply Forall_impl. intros b Hb. unfold is_byte. lia. }
+  split; [|split; [assumption|]; split; [assumption|]; split; assumption].
+  pose proof (Forall_znth _ 0 _ 8 HF ltac:(rewrite Hz; lia)) as H8.
+  pose proof (Forall_znth _ 0 _ 9 HF ltac:(rewrite Hz; lia)) as H9.
+  cbn beta in H8, H9. unfold TABLE_END_FLAG. lia.
+Qed.
+
+(** * The second example (holes and ghosts) satisfies the hypotheses *)
+Lemma bytes_ok l : forallb (fun x => (0 <=? x) && (x <? 256)) l = true -> Forall is_byte l.
+Proof.
+  intros H. apply Forall_forall. intros x Hx. rewrite forallb_forall in H. specialize (H x Hx). unfold is_byte. lia.
+Qed.
+Lemma ex_ghost_ok g :
+  zlen (lg_raw_name g) = 12 ->
+  forallb (fun x => (0 <=? x) && (x <? 256)) (lg_raw_name g ++ [lg_type g] ++ lg_data g) = true ->
+  negb (znth 0 (lg_raw_name g) 8 + 256 * znth 0 (lg_raw_name g) 9 =? TABLE_END_FLAG) = true ->
+  negb (mem (lg_type g) [115; 243; 112; 240]) = true -> 0 <= lg_size g < 16777216 -> ghost_ok g.
+Proof.
+  intros H1 H2 H3 H4 H5. apply bytes_ok in H2. apply Forall_app in H2 as [Ha H2]. apply Forall_app in H2 as [Hb Hc].
+  split; [assumption|]. split; [assumption|]. split; [lia|]. split; [now inversion Hb|].
+  split; [|split; assumption]. unfold mem, existsb in H4. cbn [In]. lia.
+Qed.
+Lemma ex2_alloc_ok : image_alloc_ok ex2_logical ex2_alloc.
+Proof.
+  split; [reflexivity|]. constructor; [|constructor]. cbn [fst snd].
+  set (P := {| lp_sectors := 40; lp_vols := _ |}). set (AP := [_; _; _]).
+  assert (Ea : all_secs (part_items P AP) = [5; 9; 11; 14; 13; 20; 21; 30; 25; 38]) by reflexivity.
+  assert (Ed : dir_secs (part_items P AP) = [5; 20; 21; 38]) by reflexivity.
+  unfold part_alloc_ok. rewrite Ea. cbn [lp_sectors lp_vols lp_slots P]. unfold SAT_ENTRIES.
+  split; [lia|]. split; [reflexivity|]. split; [reflexivity|]. split.
+  { split; [cbn; lia|repeat constructor; lia]. }
+  split.
+  { repeat constructor; cbn [In]; lia. }
+  split; [repeat constructor; lia|].
+  constructor; [|constructor; [|constructor; [|constructor]]]; cbn [fst snd]; unfold vol_alloc_ok; rewrite Ed;
+    cbn [lv_name lv_type lv_entries av_dir av_files].
+  - split; [apply ex_name_ok; [vm_compute; congruence|reflexivity|cbn; lia]|].
+    split; [now right|]. split; [reflexivity|]. split.
+    { exists 5, O. split; [reflexivity|]. split; [lia|]. split; [vm_compute; congruence|]. cbn [In]. lia. }
+    constructor; [|constructor; [|constructor; [|constructor]]]; cbn [fst snd entry_alloc_ok].
+    + apply ex_kick_alloc.
+    + split; [apply ex_ghost_ok; try reflexivity; cbn; lia|]. split; [vm_compute; congruence|]. intros _. discriminate.
+    + apply ex_snare_alloc.
+  - split; [apply ex_name_ok; [vm_compute; congruence|reflexivity|cbn; lia]|].
+    split; [now left|]. split; [reflexivity|]. split.
+    { exists 20, 1%nat. split; [reflexivity|]. split; [lia|]. split; [vm_compute; congruence|]. cbn [In]. lia. }
+    constructor; [|constructor; [|constructor]]; cbn [fst snd entry_alloc_ok].
+    + split; [apply ex_ghost_ok; try reflexivity; cbn; lia|]. split; [vm_compute; congruence|]. intros _. discriminate.
+    + apply ex_kick_alloc.
+  - split; [apply ex_name_ok; [vm_compute; congruence|reflexivity|cbn; lia]|].
+    split; [now right|]. split; [reflexivity|]. split.
+    { exists 38, O. split; [reflexivity|]. split; [lia|]. split; [vm_compute; congruence|]. cbn [In]. lia. }
+    constructor; [|constructor]; cbn [fst snd entry_alloc_ok].
+    split; [apply ex_ghost_ok; try reflexivity; cbn; lia|]. split; [vm_compute; congruence|].
+    cbn [ex_unknown ghost_named lg_type In]. lia.
+Qed.
+Lemma ex2_plain : image_plain ex2_logical.
+Proof.
+  assert (E1 : make_export_name [75; 73; 67; 75] true = [75; 73; 67; 75]) by reflexivity.
+  assert (E2 : make_export_name [83; 78; 65; 82; 69; 46; 49] true = [83; 78; 65; 82; 69; 46; 49]) by reflexivity.
+  constructor; [|constructor]. split.
+  { cbn [lp_vols map lv_name]. vm_compute. repeat constructor; cbn [In]; intros H; repeat destruct H as [H|H]; try discriminate; assumption. }
+  cbn [lp_vols]. constructor; [|constructor; [|constructor; [|constructor]]]; unfold volume_plain, lv_files;
+    cbn [lv_entries samples_of map ex_kick ex_snare ls_name]; rewrite ?E1, ?E2.
+  - split.
+    + constructor; [intros [H|[]]; discriminate|]. constructor; [intros []|constructor].
+    + intros n m [<-|[<-|[]]] H; vm_compute in H; discriminate.
+  - split.
+    + constructor; [intros []|constructor].
+    + intros n m [<-|[]] H; vm_compute in H; discriminate.
+  - split; [constructor|]. intros n m [].
+Qed.
+Lemma ex2_export :
+  akai_export (akai_serialise ex2_logical ex2_alloc) = Ok (expected [[65]] ex2_logical).
+Proof. apply akai_export_correct_lemma; [exact ex2_alloc_ok|exact ex2_plain|reflexivity]. Qed.
+Lemma ex2_not_v1 : ~ image_v1 ex2_logical.
+Proof. intros H. apply Forall_inv in H. destruct H as [H _]. discriminate H. Qed.
 
 (** the composed theorem with the partition letters spelled out *)
 Lemma akai_export_correct_letters_lemma L A :
